@@ -1,0 +1,43 @@
+//go:build verif
+
+// Package verifhook is only compiled with the "verif" build tag. It re-exports
+// the internal packages to the external verification harness (a module outside
+// this one cannot import internal/...). It adds no behaviour.
+package verifhook
+
+import (
+	"github.com/dekarrin/rosed/internal/gem"
+	"github.com/dekarrin/rosed/internal/manip"
+	"github.com/dekarrin/rosed/internal/tb"
+	"github.com/dekarrin/rosed/internal/util"
+)
+
+type GString = gem.String
+type Block = tb.Block
+
+var (
+	GemSplit        = gem.Split
+	GemNew          = gem.New
+	GemRepeat       = gem.Repeat
+	GemRepeatStr    = gem.RepeatStr
+	GemSlice        = gem.Slice
+	GemStrings      = gem.Strings
+	GemPreds        = gem.VerifPreds
+	GemFromRunes    = gem.VerifFromRunes
+	GemZeroFilled   = gem.VerifZeroFilled
+	RangeToIndexes  = util.RangeToIndexes
+	TbNew           = tb.New
+	CollapseSpace   = manip.CollapseSpace
+	CombineColumns  = manip.CombineColumnBlocks
+	JustifyLine     = manip.JustifyLine
+	Wrap            = manip.Wrap
+	AlignLineLeft   = manip.AlignLineLeft
+	AlignLineRight  = manip.AlignLineRight
+	AlignLineCenter = manip.AlignLineCenter
+	CountLeadingWS  = manip.CountLeadingWhitespace
+	CountTrailingWS = manip.CountTrailingWhitespace
+	MakeTable       = manip.MakeTable
+)
+
+// GemZero returns the package-level gem.Zero value.
+func GemZero() gem.String { return gem.Zero }
